@@ -41,6 +41,7 @@ type Node struct {
 	DefPos int    `json:"def_pos,omitempty"` // position of default among the cases
 	Dead  bool    `json:"dead,omitempty"`   // jump statements: followed by a (dead) trace in the same block
 	Fill  int     `json:"fill,omitempty"`   // trace statements: 0 none, else a filler statement (see fillers) follows the trace
+	Same  bool    `json:"same,omitempty"`   // for: the counter is called i, like the counters of other such loops around it
 }
 
 // fillers are straight-line statements placed between the control constructs. They do not change where control goes;
@@ -125,10 +126,17 @@ func (p *printer) node(n *Node, d int, nest int) {
 		p.ifChain(n, d, nest, "if")
 	case "for":
 		v := fmt.Sprintf("i%d", n.ID)
+		if n.Same {
+			v = "i" // every such loop declares its own i: nested ones shadow the enclosing loop's counter
+		}
 		post := v + "++"
 		init := v + " := 0"
 		emptyCond, emptyPost := false, false
-		switch n.Post % 9 {
+		postKind := n.Post % 9
+		if n.Same && postKind == 7 {
+			postKind = 0 // two sibling loops cannot both declare i in the enclosing block
+		}
+		switch postKind {
 		case 6: // no condition: the body's first statement leaves the loop
 			emptyCond = true
 		case 7: // no init statement: the counter is declared before the loop
@@ -192,7 +200,9 @@ func (p *printer) node(n *Node, d int, nest int) {
 	case "range":
 		k, v := fmt.Sprintf("k%d", n.ID), fmt.Sprintf("v%d", n.ID)
 		var over string
-		switch n.Over % 3 {
+		switch n.Over % 4 {
+		case 3: // the function's slice variable itself: nested loops of this kind iterate over the same slice value
+			over = "rs"
 		case 0:
 			over = "[]int{10, 20, 30}[:" + fmt.Sprint(n.N) + "]"
 		case 1:
@@ -208,8 +218,8 @@ func (p *printer) node(n *Node, d int, nest int) {
 		p.line(d, "}")
 	case "switch":
 		tag := p.v(0)
-		switch n.Tag % 3 {
-		case 0:
+		switch n.Tag % 4 {
+		case 0, 3:
 			p.line(d, "switch %s {", tag)
 		default:
 			p.line(d, "switch {")
@@ -223,8 +233,14 @@ func (p *printer) node(n *Node, d int, nest int) {
 				emitDefault()
 			}
 			var vs []string
-			for _, x := range c.Vals {
-				switch n.Tag % 3 {
+			for vi, x := range c.Vals {
+				switch n.Tag % 4 {
+				case 3: // alternatives that are local variables (kv0..kv5 hold 0..5), mixed with constants
+					if (vi+ci)%3 == 2 {
+						vs = append(vs, fmt.Sprint(x))
+					} else {
+						vs = append(vs, fmt.Sprintf("kv%d", x))
+					}
 				case 0:
 					vs = append(vs, fmt.Sprint(x))
 				case 1:
@@ -281,7 +297,7 @@ func (s *Skel) Source() (string, map[int]int) {
 	sb.WriteString("func one(id int) int {\n\tfmt.Println(\"post\", id)\n\treturn 1\n}\n\n")
 	sb.WriteString("func is(a int, b int) bool {\n\treturn a == b\n}\n\n")
 	sb.WriteString("var ws = make([]int, 64)\n\nfunc step(k int) {\n\tfmt.Println(\"post\", k)\n\tws[k]++\n}\n\nfunc reset(k int) int {\n\tws[k] = 0\n\treturn k\n}\n\n")
-	sb.WriteString("func f(p int) {\n\tacc := p\n\tzs := []int{1, 2, 3, 4}\n")
+	sb.WriteString("func f(p int) {\n\tacc := p\n\tzs := []int{1, 2, 3, 4}\n\trs := []int{10, 20, 30}\n\t_ = rs\n\tkv0, kv1, kv2, kv3, kv4, kv5 := 0, 1, 2, 3, 4, 5\n\t_, _, _, _, _, _ = kv0, kv1, kv2, kv3, kv4, kv5\n")
 	sb.WriteString(p.sb.String())
 	sb.WriteString("\tfmt.Println(\"end\", p, acc, zs)\n}\n\n")
 	sb.WriteString("func Main() {\n\tfor p := 0; p < 3; p++ {\n\t\tfmt.Println(\"call\", p)\n\t\tf(p)\n\t}\n\tfmt.Println(inc(1, 0), one(0), is(1, 1))\n}\n")
@@ -356,7 +372,7 @@ func (g *genState) stmt(depth int, inLoop, inSwitch bool) *Node {
 		}
 		return n
 	case 2:
-		n := &Node{K: "for", ID: g.nextID(), N: rx.Range(rt, "bound", 1, 3), Post: rx.Uniform(rt, 9, "post")}
+		n := &Node{K: "for", ID: g.nextID(), N: rx.Range(rt, "bound", 1, 3), Post: rx.Uniform(rt, 9, "post"), Same: rx.Chance(rt, "samename", 1, 3)}
 		n.Body = g.stmts(depth+1, true, false, 4)
 		return n
 	case 3:
@@ -368,11 +384,11 @@ func (g *genState) stmt(depth int, inLoop, inSwitch bool) *Node {
 		n.Body = g.stmts(depth+1, true, false, 4)
 		return n
 	case 5:
-		n := &Node{K: "range", ID: g.nextID(), N: rx.Range(rt, "bound", 1, 3), Over: rx.Uniform(rt, 3, "over")}
+		n := &Node{K: "range", ID: g.nextID(), N: rx.Range(rt, "bound", 1, 3), Over: rx.Uniform(rt, 4, "over")}
 		n.Body = g.stmts(depth+1, true, false, 4)
 		return n
 	case 6:
-		n := &Node{K: "switch", ID: g.nextID(), Tag: rx.Uniform(rt, 3, "tag")}
+		n := &Node{K: "switch", ID: g.nextID(), Tag: rx.Uniform(rt, 4, "tag")}
 		nc := rx.Range(rt, "ncases", 0, 3)
 		used := map[int]bool{}
 		for i := 0; i < nc; i++ {
@@ -483,6 +499,7 @@ func enumerate(n int, visit func(s *Skel)) {
 		for _, b := range lists(inner, depth+1, true, false) {
 			if len(b) > 0 {
 				res = append(res, &Node{K: "for", N: 2, Post: 1, Body: b})
+				res = append(res, &Node{K: "for", N: 2, Post: 1, Same: true, Body: b}) // counter named i: nested ones shadow
 				res = append(res, &Node{K: "for", N: 2, Post: 4, Body: b})
 				res = append(res, &Node{K: "range", N: 2, Over: 0, Body: b})
 			}
@@ -520,7 +537,13 @@ func decorate(ns []*Node, salt int) {
 		if n.K == "t" {
 			n.Fill = 1 + (salt+n.ID*5)%(len(fillers)-1)
 		}
-		if n.K == "for" && n.Post == 1 && (salt+n.ID)%3 == 0 {
+		if n.K == "range" && (salt+n.ID)%2 == 1 {
+			n.Over = 3
+		}
+		if n.K == "switch" && n.Tag == 0 && (salt+n.ID)%2 == 0 {
+			n.Tag = 3
+		}
+		if n.K == "for" && n.Post == 1 && !n.Same && (salt+n.ID)%3 == 0 {
 			n.Post = 5 + (salt+n.ID)%4 // constant step, or one of the three clauses empty
 		}
 		decorate(n.Body, salt)
